@@ -103,6 +103,11 @@ def behaviours(tier):
         for how in ('raise', 'return'):
             for breaking in (True, False):
                 out.append((('http', c, how, breaking), 'http'))
+    # the documented mimetype= option with types clastic cannot render (a plain-text fallback is promised)
+    for c in ('Forbidden', 'NotFound', 'ServiceUnavailable'):
+        for how in ('raise', 'return'):
+            for mt in ('application/problem+json', 'text/csv', 'text/html', ''):
+                out.append((('http', c, how, True, mt), 'http'))
     return out
 
 
@@ -259,7 +264,8 @@ class App(object):
             raise e
         if beh[0] == 'http':
             cls = getattr(self.errors, beh[1])
-            e = cls('detail of %s' % beh[1], is_breaking=beh[3])
+            kw2 = {'mimetype': beh[4]} if len(beh) > 4 else {}
+            e = cls('detail of %s' % beh[1], is_breaking=beh[3], **kw2)
             ctl.raised = e
             if beh[2] == 'raise':
                 raise e
